@@ -207,11 +207,14 @@ class BoostNpcLinearOperator(NpcLinearOperatorWrapper):
         for b, bv in zip(self.boosts, self.boost_vecs):
             krylov_based.iadd_prefactor_other(temp, b * npc.inner(bv, vec, axes='range', do_conj=True), bv)
         return temp
-        # return self.orig_operator.matvec(vec) + self.shift * vec
+        # return self.orig_operator.matvec(vec) + sum_i self.boosts[i] * |vec_i><vec_i|vec>
 
     def to_matrix(self):
         mat = self.orig_operator.to_matrix()
-        return mat + self.shift * npc.eye_like(mat)
+        for b, bv in zip(self.boosts, self.boost_vecs):
+            bv = bv.combine_legs(bv.get_leg_labels())
+            mat = mat + b * npc.outer(bv, bv.conj()).iset_leg_labels(mat.get_leg_labels())
+        return mat
 
     def adjoint(self):
         return BoostNpcLinearOperator(self.orig_operator.adjoint(), np.conj(self.boosts), self.boost_vecs)
